@@ -928,6 +928,25 @@ def _bound_exact(S, dt, inner, depth, extra=1.0):
     return tol.exact_bound(_slack(S), dt, inner, depth, extra)
 
 
+def _struct_cond(r):
+    """Woodbury-type classes (LowRankRootAddedDiag, KroneckerProductAddedDiag) invert their diagonal summand separately:
+    the forward error of their closed-form solve / logdet scales with ||A|| / min(D) (cancellation), not with kappa(A)."""
+    out = 1.0
+    for nd in R.walk(r):
+        if nd["op"] in ("LowRankRootAddedDiag", "KroneckerAddedDiag"):
+            try:
+                d = [a for a in nd["args"] if gen.is_diag_instance(a)]
+                if not d:
+                    continue
+                dd = refmodel.dense(d[0]).diagonal(dim1=-2, dim2=-1).to(F64)
+                nrm = float(torch.linalg.matrix_norm(refmodel.dense(nd).to(F64), ord=2).max())
+                if float(dd.min()) > 0:
+                    out = max(out, nrm / float(dd.min()))
+            except Exception:
+                continue
+    return out
+
+
 def _cond(A):
     if A.numel() == 0:
         return 1.0
@@ -1158,7 +1177,7 @@ def _plan(case):
     # ---------------------------------------------------------------- direct methods
     u = tol.U[dt]
     if fam in ("logdet", "solve", "solve_triangular", "inverse"):
-        kappa = _cond(A)
+        kappa = max(_cond(A), _struct_cond(r))
         c = tol.C_DIRECT * max(nmat, 1) * u * kappa
         if fam == "logdet":
             ref = torch.logdet(A)
